@@ -77,6 +77,9 @@ def replay_case(item):
             links.append(DF.load(os.path.join(tmpd, 'appended.csv'), name='appended', cast_strategy=DF.load.CAST_WITH_SCHEMA))
         else:
             links.append(tuple_source([('appended', [('a', 'integer'), ('b', 'integer')], rows)]))
+    if v.get('preused') and op in ('concat', 'duplicate', 'delete'):
+        from ..common import preuse
+        preuse(links[1:], lambda: tuple_source(srcs))
     drop = v.get('then_delete')
     if drop is not None:
         links.append(DF.delete_resource([rname(drop) if drop in (0,) or drop > 100 else 'r%d' % drop]))
@@ -347,7 +350,8 @@ def run():
         cases = cases[:2500]
     items = []
     for c in cases + big:
-        items.append(dict(case=c, variant=dict(batch=r.choice([1, 2, 1000]), mutate=r.random() < 0.5, source=r.choice(['iterable', 'tuple', 'sources', 'load']))))
+        items.append(dict(case=c, variant=dict(batch=r.choice([1, 2, 1000]), mutate=r.random() < 0.5, source=r.choice(['iterable', 'tuple', 'sources', 'load']),
+                                               preused=r.random() < 0.3)))
     # two-step programs: the restructuring step followed by a delete_resource of one of its outputs
     for c in (cases + big):
         if c['op'] == 'duplicate' and r.random() < (0.3 if t == 'quick' else 1.0):
